@@ -9,6 +9,8 @@ From SV Require Import Lib.Base Gen.WireFields Model.WireBase Proofs.WireBasePro
 From SV Require Import Model.WireEth Proofs.WireEthProofs.
 From SV Require Import Model.WireArp Proofs.WireArpProofs.
 From SV Require Import Model.WireUdp Proofs.WireUdpProofs.
+From SV Require Import Model.WireIpv4 Proofs.WireIpv4Proofs.
+From SV Require Import Model.WireIpv6 Proofs.WireIpv6Proofs.
 
 (* ---------------- Ethernet II ---------------- *)
 
@@ -51,3 +53,36 @@ Theorem C07_udp_parse_total : forall sum_ok (sum_fill : list Z -> Z) is_v4 rx bs
   bytes_ok bs = true -> udp_parse sum_ok is_v4 rx bs <> Panic.
 Proof. exact udp_parse_total. Qed.
 Print Assumptions C07_udp_parse_total.
+
+(* ---------------- IPv4 ---------------- *)
+
+Theorem C07_ipv4_accessors_safe : forall sum_ok (sum_fill : list Z -> Z) bs,
+  bytes_ok bs = true -> ipv4_check_len bs = Ok tt ->
+  ipv4_version bs <> Panic /\ ipv4_header_len bs <> Panic /\ ipv4_dscp bs <> Panic /\
+  ipv4_ecn bs <> Panic /\ ipv4_total_len bs <> Panic /\ ipv4_ident bs <> Panic /\
+  ipv4_dont_frag bs <> Panic /\ ipv4_more_frags bs <> Panic /\ ipv4_frag_offset bs <> Panic /\
+  ipv4_hop_limit_ bs <> Panic /\ ipv4_next_header bs <> Panic /\ ipv4_checksum bs <> Panic /\
+  ipv4_src_addr bs <> Panic /\ ipv4_dst_addr bs <> Panic /\ ipv4_payload bs <> Panic /\
+  ipv4_verify_checksum sum_ok bs <> Panic.
+Proof. exact ipv4_accessors_safe. Qed.
+Print Assumptions C07_ipv4_accessors_safe.
+
+Theorem C07_ipv4_parse_total : forall sum_ok (sum_fill : list Z -> Z) rx bs,
+  bytes_ok bs = true -> ipv4_parse sum_ok rx bs <> Panic.
+Proof. exact ipv4_parse_total. Qed.
+Print Assumptions C07_ipv4_parse_total.
+
+(* ---------------- IPv6 ---------------- *)
+
+Theorem C07_ipv6_accessors_safe : forall bs,
+  bytes_ok bs = true -> ipv6_check_len bs = Ok tt ->
+  ipv6_version bs <> Panic /\ ipv6_traffic_class bs <> Panic /\ ipv6_flow_label bs <> Panic /\
+  ipv6_payload_len_ bs <> Panic /\ ipv6_total_len bs <> Panic /\ ipv6_next_header bs <> Panic /\
+  ipv6_hop_limit_ bs <> Panic /\ ipv6_src_addr bs <> Panic /\ ipv6_dst_addr bs <> Panic /\
+  ipv6_payload bs <> Panic.
+Proof. exact ipv6_accessors_safe. Qed.
+Print Assumptions C07_ipv6_accessors_safe.
+
+Theorem C07_ipv6_parse_total : forall bs, bytes_ok bs = true -> ipv6_parse bs <> Panic.
+Proof. exact ipv6_parse_total. Qed.
+Print Assumptions C07_ipv6_parse_total.
